@@ -832,6 +832,8 @@ impl VLog {
 
 	/// Retrieves a value using a ValuePointer
 	pub(crate) fn get(&self, pointer: &ValuePointer) -> Result<Value> {
+		#[cfg(surrealkv_verif)]
+		crate::verif::VLOG_POINTER_READS.fetch_add(1, Ordering::Relaxed);
 		// Check unified block cache first
 		if let Some(cached_value) = self.opts.block_cache.get_vlog(pointer.file_id, pointer.offset)
 		{
@@ -974,6 +976,8 @@ impl VLog {
 					);
 					// Continue with other files, don't fail the entire cleanup
 				} else {
+					#[cfg(surrealkv_verif)]
+					crate::verif::VLOG_FILES_REMOVED.fetch_add(1, Ordering::Relaxed);
 					log::info!(
 						"Deleted obsolete VLog file: file_id={}, path={:?}",
 						file_id,
